@@ -147,7 +147,7 @@ def handle (j : Json) : IO Unit := do
             if !agree then modelJ := toJson (repr w).pretty
           | .error e => modelJ := errJson e
           if !(jbool (jget impl "meta_ok")) then fails := fails ++ [("transformed-request-metadata", "ModelName / IsStreaming / TargetPath differ from the request")]
-          if !(valid r) then fails := fails ++ [("invalid-request-accepted", "an invalid request was translated instead of rejected")]
+          if !(valid r) || fieldsCertainlyBad r then fails := fails ++ [("invalid-request-accepted", "an invalid request was translated instead of rejected")]
           if !(scalarsPreserved r o) then fails := fails ++ [("scalar-changed", "model / max_tokens / stream / temperature / top_p / stop differ")]
           if !(toolsPreserved r o) then fails := fails ++ [("tools-changed", "tool definitions differ")]
           if !(choicePreserved r o) then
@@ -166,7 +166,8 @@ def handle (j : Json) : IO Unit := do
             | .toolChoice => jstr (jget e "class") == "toolChoice")
           modelJ := errJson we
         | .ok _ => modelJ := "ok"
-        if valid r then fails := fails ++ [("valid-request-rejected", s!"rejected: {jstr (jget e "msg")}")]
+        if valid r || (fieldsCertainlyGood r && r.messages.all (fun m => !m.content.isBad) && choiceOk errorRows r) then
+          fails := fails ++ [("valid-request-rejected", s!"rejected: {jstr (jget e "msg")}")]
         if !(jbool (jget impl "error_format_ok")) then fails := fails ++ [("error-format", "WriteError(400) is not an Anthropic invalid_request_error body")]
         if jbool (jget impl "produced_despite_error") then fails := fails ++ [("output-despite-error", "a request was produced next to the error")]
     match pickFailure fails with
